@@ -954,6 +954,7 @@ func Main(property string, gen func(cfg *Config, emit func(Scenario))) {
 	writeStats(cfg, st)
 	for _, v := range st.Violations {
 		if v.Nondet {
+			fmt.Fprintf(os.Stderr, "MACHINERY: a failure did not reproduce from its choice list (harness nondeterminism, no verdict): %s in scenario %s, reproduced %d of 5\n", v.Failure.Key, v.Scenario, v.Repro)
 			os.Exit(3)
 		}
 	}
